@@ -520,6 +520,10 @@ def pick_obj(rng, schemas):
     c = rng.random()
     if objs and c < 0.8:
         p, n, _ = rng.choice(objs)
+        if rng.random() < 0.08:
+            # the PACKAGE part of a reference is matched exactly: a package differing in letter case is absent
+            q = p.capitalize() if p.capitalize() != p else p.upper()
+            return q, n
         return p, vary_case(rng, n)
     if c < 0.9 and schemas:
         return rng.choice(schemas)["pkg"], "Absent"
@@ -531,6 +535,8 @@ def pick_field(rng, schemas):
     c = rng.random()
     if fs and c < 0.8:
         p, o, f = rng.choice(fs)
+        if rng.random() < 0.08:
+            return [p.capitalize() if p.capitalize() != p else p.upper(), o, f]
         return [p, vary_case(rng, o), vary_case(rng, f)]
     if fs and c < 0.9:
         p, o, f = rng.choice(fs)
